@@ -9,7 +9,7 @@ CHECKS = {
     "C19": {
         "engine": "L",
         "technique": "exhaustive enumeration of the finite registry: every species x identifier x letter-case pattern, all ordered species pairs, all line pairs",
-        "text": "The space is finite and is closed completely: every exported Element/Isotope, every identifier spelling and case pattern, every ordered pair for ==/!=/hash, every Line pair over a small transition set. Because nothing is left out, silence is a proof for the registry as shipped.",
+        "text": "The space is finite and is closed completely: every exported Element/Isotope, every identifier spelling and case pattern, every ordered pair for ==/!=/hash, every Line pair over a small transition set. Because nothing is left out, silence is a proof for the registry as shipped. Every identifier spelling additionally goes through both look-up functions, in both orders, three rounds in one process (a look-up must be a function of its argument only).",
         "note": "Trusts the independent periodic table in mc/refs/periodic.py and that species are the module attributes of cherab.core.atomic.elements.",
     },
     "C05": {
@@ -39,7 +39,7 @@ CHECKS = {
     "C13": {
         "engine": "L",
         "technique": "bounded-exhaustive enumeration of an argument alphabet (products incl. subnormals, signed zeros, exact period multiples, huge values), all axis/shape selectors, all simple lattice polygons (3x3 up to 6, 4x4 up to 5 vertices; thorough 7) in every presentation, all sample-count/range combinations; oracle on the arguments the wrapped callable actually receives",
-        "text": "The wrapped function records what it is called with, so the oracle is on the mapped argument itself: exact equality for iso-mapping/swizzle/slice/clamp, <=2 ulp for hypot/atan2 mappers (60-digit reference), inner periodic argument strictly in [0,p) and congruent to x mod p (exact rationals), polygon mask == exact rational point-in-polygon on three offset lattices, sampler arrays index-exact with an injective integer-coded function. The space (alphabet products, every polygon with every start vertex and orientation) is closed completely.",
+        "text": "The wrapped function records what it is called with, so the oracle is on the mapped argument itself: exact equality for iso-mapping/swizzle/slice/clamp, <=2 ulp for hypot/atan2 mappers (60-digit reference), inner periodic argument strictly in [0,p) and congruent to x mod p (exact rationals), polygon mask == exact rational point-in-polygon on three offset lattices, sampler arrays index-exact with an injective integer-coded function. Where x mod p is exactly representable (all x >= 0, exact multiples) the inner argument must equal it exactly. The space (alphabet products, every polygon with every start vertex and orientation) is closed completely.",
         "note": "Nothing is claimed between alphabet values; magnitudes beyond 1e150 (x*x overflow) and strictly between 5e-324 and 1e-20 (x*x underflow) are outside the alphabet; boundary points of polygons are excluded as undefined.",
     },
     "C01": {
@@ -51,25 +51,25 @@ CHECKS = {
     "C02": {
         "engine": "L",
         "technique": "bounded-exhaustive lattice over models x plasma states x B x directions x windows (contain/straddle/between/cut-off-edge/miss/isolate) x bins x radiance x polarisation, closed-form erf / 2F1 reference per bin",
-        "text": "Every lattice point calls the real add_line on a zeroed spectrum and compares every bin with the bin-average of the documented normalised profile (erf for Gaussian parts, closed-form CDF for the modified Lorentzian, cross-checked against scipy quad in each worker), the window integral, pi+sigma==unpolarised, component ratios from isolating windows and the zero-width rule. bin-width/FWHM class is part of the signature so that the known coarse-grid quadrature defect cannot mask a wrong weight.",
+        "text": "Every lattice point calls the real add_line on a zeroed spectrum and compares every bin with the bin-average of the documented normalised profile (erf for Gaussian parts, closed-form CDF for the modified Lorentzian, cross-checked against scipy quad in each worker), the window integral, pi+sigma==unpolarised, component ratios from isolating windows and the zero-width rule. An engine-H style family covers the per-bin integrator: every order of min_order / max_order / relative_tolerance assignments (with an integration optionally before each) must integrate like an integrator constructed with the final values. bin-width/FWHM class is part of the signature so that the known coarse-grid quadrature defect cannot mask a wrong weight.",
         "note": "Tolerance 1e-9 of the peak bin for erf shapes, 2e-4 where a Lorentzian part is present (20x the documented quadrature rtol); MSE with n_e<=0/T_e<=0 and the exact L==G pseudo-Voigt boundary are not in the lattice.",
     },
     "C03": {
         "engine": "L",
         "technique": "bounded-exhaustive enumeration of all composition subsets x lines x value lattices (incl. zero/negative densities and temperatures) x line shapes x windows, compared with the documented expressions; mock provider keyed by the full request key",
-        "text": "All subsets (size<=4, thorough 5) of a species universe are attached to each passive model; emission() is compared with the documented total, exact-zero and sign rules and linearity, the recorder line shape checks constructor arguments and radiance, Bremsstrahlung is compared with Hutchinson 5.3.40 from scipy.constants by an independent Gauss-Legendre integral, and slab Ray.trace checks the material path.",
+        "text": "All subsets (size<=4, thorough 5) of a species universe are attached to each passive model; emission() is compared with the documented total, exact-zero and sign rules and linearity, the recorder line shape checks constructor arguments and radiance, Bremsstrahlung is compared with Hutchinson 5.3.40 from scipy.constants by an independent Gauss-Legendre integral, and slab Ray.trace checks the material path. A sequence family evaluates ONE model instance across two regions (densities zero / negative in one), a plasma notification and two composition changes, against a fresh model at the same point.",
         "note": "Slab traces rel 1e-7 (raysect shortens the path by its 1e-9 m epsilon); default adaptive brems integrator rel 1e-5, fixed order 1e-8.",
     },
     "C04": {
         "engine": "L",
         "technique": "bounded-exhaustive lattice over beam parameters x attenuator step/clamp x placements x plasma kinds (none, uniform, non-uniform, slab, flow, zero-rate, neutral), each compared with an independent numpy reference of the documented node rule and with a fine Gauss-Legendre integral",
-        "text": "Each configuration is a freshly built scene; on-axis line density at every node/midpoint against exp(-trapezoid(S)/v) on the documented nodes, transverse moments and cross-section flux by Gauss-Hermite / polar Gauss-Legendre, exact zeros outside the domain and clamp, monotone decay, attenuator==beam density, direction unit/tangent and three integrated streamlines.",
+        "text": "Each configuration is a freshly built scene; on-axis line density at every node/midpoint against exp(-trapezoid(S)/v) on the documented nodes, transverse moments and cross-section flux by Gauss-Hermite / polar Gauss-Legendre, exact zeros outside the domain and clamp, monotone decay, attenuator==beam density, direction unit/tangent and three integrated streamlines. A reconfiguration family brings an already observed beam from configuration A to B through the public setters (composition, atomic data, element, energy, power, length, attenuator step) and compares with the analytic attenuation law of B.",
         "note": "Reference in mc/refs/c04_model.py (no cherab import); with clamping on the conserved quantity is the flux inside the clamp ellipse; tolerance 1e-12 + 1e-11*exponent.",
     },
     "C15": {
         "engine": "H",
         "technique": "explicit-state exploration of all operation sequences (add/assign/rename/lookup/broadcast with every value kind) up to length 2-3 (thorough 3-4) on each of 7 group classes, sizes 0..3 (4), oracle after every operation against a list-of-dicts model and against a freshly built group",
-        "text": "Members are counting subclasses of the real observers. The attribute table is introspected from the classes and cross-checked with a hand list; per (class, attribute) every value kind incl. wrong lengths and empty lists, all attribute pairs for cross-talk, membership operations and look-ups; after each op every member attribute, group getter, parent/children, index/slice/name look-up and observe counter is compared with the model.",
+        "text": "Members are counting subclasses of the real observers. The attribute table is introspected from the classes and cross-checked with a hand list; per (class, attribute) every value kind incl. wrong lengths and empty lists, all attribute pairs for cross-talk, membership operations and look-ups; after each op every member attribute, group getter, parent/children, index/slice/name look-up and observe counter is compared with the model. After every accepted assignment the caller-owned list / array is modified in place: the group must not be affected.",
         "note": "BolometerCamera slice look-up (documented int/str only) is counted, not asserted; duplicate-name look-up only asserts membership.",
     },
     "C16": {
@@ -123,7 +123,7 @@ CHECKS = {
     "C17": {
         "engine": "L",
         "technique": "exhaustive enumeration of all simple lattice polygons (3x3 lattice 3..6 vertices, 4x4 3..5; thorough 3..8 / 3..6) x placements (dyadic, axis-touching, non-dyadic) x every cyclic rotation and both orientations x input container kinds; exact rational area/centroid; the triangle-selection variate enumerated through the guard hook at every cumulative-area boundary +-1 ulp, interval midpoints and the extremes",
-        "text": "Area, centroid, volume (= 2 pi r_c A), invariance under vertex order, triangulation is an exact partition, grid total volume, constants reproduced exactly; the selection map of emissivity_from_function is decided for every value of the variate because it is piecewise constant between the enumerated points (bisection on a sorted array), so with raysect's point_triangle uniform inside a triangle the estimator is unbiased. All real-code calls of a case run in a forked child so that an out-of-range read (garbage or segfault) maps to one signature.",
+        "text": "Area, centroid, volume (= 2 pi r_c A), invariance under vertex order, triangulation is an exact partition, grid total volume, constants reproduced exactly; the selection map of emissivity_from_function is decided for every value of the variate because it is piecewise constant between the enumerated points (bisection on a sorted array), so with raysect's point_triangle uniform inside a triangle the estimator is unbiased. All real-code calls of a case run in a forked child so that an out-of-range read (garbage or segfault) maps to one signature. Grid total volume is read again under every emitter configuration (set_active, unparent_all_voxels, parent_all_voxels, active= in the constructor).",
         "note": "Trusts raysect triangulate2d and point_triangle; area/centroid tolerance rel 1e-12 plus the forward error bound of the documented shoelace sums for non-dyadic placements; with rounded coordinates either neighbour is accepted inside a band of 2^-52 (256 max|r| max|z| + 8A) around a boundary, decisive points sit just outside.",
     },
 }
